@@ -8,6 +8,10 @@ import (
 )
 
 func main() {
+	if len(os.Args) > 1 && os.Args[1] == "c07-concurrent" {
+		c07ConcurrentPass(os.Args[2:])
+		return
+	}
 	if len(os.Args) > 1 && os.Args[1] == "c07-hash" {
 		c07HashPass(os.Args[2:])
 		return
